@@ -35,10 +35,15 @@ Lemma orders_toks0 : forall i l, orders_toks sr0 i l = map (order_toks no_parens
 Proof. intros i l. revert i. induction l as [|e l IH]; intros i; cbn [orders_toks map]; [reflexivity|]. rewrite IH. reflexivity. Qed.
 Lemma joins_toks0 : forall i l, joins_toks sr0 i l = List.concat (map (join_toks no_parens) l).
 Proof. intros i l. revert i. induction l as [|e l IH]; intros i; cbn [joins_toks map List.concat]; [reflexivity|]. rewrite IH. reflexivity. Qed.
+Lemma gsets_toks0 : forall i j l, gsets_toks sr0 i l = gsets_toks sr0 j l.
+Proof.
+  intros i j l. revert i j. induction l as [|g l IH]; intros i j; cbn [gsets_toks]; [reflexivity|].
+  rewrite (IH (i + gset_size g) (j + gset_size g)). f_equal. destruct g; cbn [gset_toks]; rewrite ?exprs_toks0; reflexivity.
+Qed.
 Lemma groups_toks0 : forall i l, groups_toks sr0 i l = map (group_item_toks sr0 0) l.
 Proof.
   intros i l. revert i. induction l as [|g l IH]; intros i; cbn [groups_toks map]; [reflexivity|]. rewrite IH. f_equal.
-  destruct g; cbn [group_item_toks]; rewrite ?exprs_toks0; reflexivity.
+  destruct g; cbn [group_item_toks]; rewrite ?exprs_toks0, ?(gsets_toks0 i 0); reflexivity.
 Qed.
 Lemma rows_toks0 : forall i rows,
     rows_toks sr0 i rows = map (fun row => tLP :: sep_by [tComma] (map (render 0 no_parens) row) ++ [tRP]) rows.
@@ -269,7 +274,7 @@ Qed.
 Lemma group_okp : forall g, group_ok g = true -> group_p g = true ->
     print_group print_ok (ast_of_group g) = Some (group_item_toks sr0 0 (norm_group g)).
 Proof.
-  intros [e|es|es] Hok Hp; cbn [group_ok group_p ast_of_group norm_group group_item_toks] in *.
+  intros [e|es|es|sets] Hok Hp; cbn [group_ok group_p ast_of_group norm_group group_item_toks] in *; [| | |discriminate Hp].
   - rewrite group_plain. apply expr_ok; assumption.
   - apply andb_prop in Hok. destruct Hok as [_ Hr]. cbn [print_group]. rewrite (exprs_ok es Hr Hp). rewrite exprs_toks0. reflexivity.
   - apply andb_prop in Hok. destruct Hok as [_ Hr]. cbn [print_group]. rewrite (exprs_ok es Hr Hp). rewrite exprs_toks0. reflexivity.
@@ -330,7 +335,10 @@ Proof.
   intros s w wt Hok Hp Hw. unfold select_ok in Hok. unfold select_p in Hp.
   repeat (apply andb_prop in Hok; let H := fresh "Ho" in destruct Hok as [Hok H]).
   repeat (apply andb_prop in Hp; let H := fresh "Hq" in destruct Hp as [Hp H]).
-  unfold ast_of_select_w. cbn [print_select]. rewrite Hw. cbn [ob].
+  destruct (s_for s) as [fo|] eqn:Efo; [discriminate Hq|]. clear Hq.
+  rename Hq0 into Hq. rename Hq1 into Hq0. rename Hq2 into Hq1. rename Hq3 into Hq2. rename Hq4 into Hq3. rename Hq5 into Hq4.
+  rename Hq6 into Hq5. rename Hq7 into Hq6. rename Hq8 into Hq7.
+  unfold ast_of_select_w. rewrite Efo. cbn [option_map print_select]. rewrite Hw. cbn [ob].
   rewrite (distinct_okp (s_distinct s) (s_distinct_on s) Hok Ho11 Hp). cbn [ob].
   rewrite map_map.
   rewrite (all_some_map (fun x => print_item print_ok (ast_of_item x)) (fun x => item_toks no_parens (norm_item x)) (s_items s))
@@ -349,7 +357,8 @@ Proof.
   rewrite (opt_num_okp [Tk TyOffset "OFFSET"] (s_offset s) Hq0). cbn [ob].
   rewrite (fetch_okp (s_fetch s) Hq). cbn [ob].
   unfold render_select, select_tail_toks, norm_select.
-  cbn [s_distinct s_distinct_on s_items s_from s_joins s_where s_group s_having s_order s_limit s_offset s_fetch].
+  cbn [s_distinct s_distinct_on s_items s_from s_joins s_where s_group s_having s_order s_limit s_offset s_fetch s_for].
+  rewrite Efo. cbn [for_toks opt_clause]. rewrite app_nil_r.
   unfold where_toks, having_toks, group_toks, orderby_toks, limit_toks, offset_toks.
   rewrite items_toks0, groups_toks0, orders_toks0, !map_map.
   first [reflexivity | rewrite <- !app_assoc; reflexivity | f_equal; rewrite <- !app_assoc; reflexivity].
@@ -377,7 +386,7 @@ Qed.
 Lemma item_norm_ast : forall it, ast_of_item (norm_item it) = ast_of_item it.
 Proof. intros [|t|e [[k n]|]]; cbn [norm_item ast_of_item norm_alias option_map snd]; try reflexivity; unfold nm; rewrite ast_of_norm; reflexivity. Qed.
 Lemma group_norm_ast : forall g, ast_of_group (norm_group g) = ast_of_group g.
-Proof. intros [e|es|es]; cbn [norm_group ast_of_group]; [unfold nm; rewrite ast_of_norm|rewrite map_nm_ast|rewrite map_nm_ast]; reflexivity. Qed.
+Proof. intros [e|es|es|sets]; cbn [norm_group ast_of_group]; [unfold nm; rewrite ast_of_norm|rewrite map_nm_ast|rewrite map_nm_ast|]; reflexivity. Qed.
 Lemma order_norm_ast : forall o, ast_of_order (norm_order o) = ast_of_order o.
 Proof. intros [e d n]. unfold ast_of_order, norm_order. cbn [o_expr o_dir o_nulls]. unfold nm. rewrite ast_of_norm. destruct d as [[|]|]; reflexivity. Qed.
 Lemma fetch_norm_ast : forall o, option_map ast_of_fetch (option_map norm_fetch o) = option_map ast_of_fetch o.
@@ -386,7 +395,7 @@ Proof. intros [f|]; reflexivity. Qed.
 Lemma select_norm_ast : forall w s, ast_of_select_w w (norm_select s) = ast_of_select_w w s.
 Proof.
   intros w s. unfold ast_of_select_w, norm_select.
-  cbn [s_distinct s_distinct_on s_items s_from s_joins s_where s_group s_having s_order s_limit s_offset s_fetch].
+  cbn [s_distinct s_distinct_on s_items s_from s_joins s_where s_group s_having s_order s_limit s_offset s_fetch s_for].
   rewrite map_nm_ast, !opt_nm_ast, fetch_norm_ast, joins_norm_ast.
   rewrite (map_map norm_item ast_of_item), (map_ext _ _ item_norm_ast).
   rewrite (map_map norm_table ast_of_table), (map_ext _ _ table_norm_ast).
@@ -431,7 +440,7 @@ Proof.
 Qed.
 Lemma group_norm_ok : forall g, group_ok g = true -> group_ok (norm_group g) = true.
 Proof.
-  intros [e|es|es] H; cbn [group_ok norm_group] in *; [apply ref_norm; exact H| |];
+  intros [e|es|es|sets] H; cbn [group_ok norm_group] in *; [apply ref_norm; exact H| | |exact H];
     apply andb_prop in H; destruct H as [Hl Hr]; rewrite map_length, Hl, (refs_nm es Hr); reflexivity.
 Qed.
 
@@ -441,7 +450,7 @@ Proof.
   intros s Hok. unfold select_ok in Hok.
   repeat (apply andb_prop in Hok; let H := fresh "Ho" in destruct Hok as [Hok H]).
   unfold select_ok, select_bare_alias_free, norm_select.
-  cbn [s_distinct s_distinct_on s_items s_from s_joins s_where s_group s_having s_order s_limit s_offset s_fetch].
+  cbn [s_distinct s_distinct_on s_items s_from s_joins s_where s_group s_having s_order s_limit s_offset s_fetch s_for].
   assert (E1 : match map nm (s_distinct_on s) with [] => true | _ => false end = match s_distinct_on s with [] => true | _ => false end)
     by (destruct (s_distinct_on s); reflexivity).
   assert (E2 : match map norm_table (s_from s) with [] => match map norm_join (s_joins s) with [] => true | _ => false end | _ => true end
@@ -599,10 +608,12 @@ Theorem print_stmt_is_render : forall s, stmt_ok s = true -> stmt_p s = true ->
     print_stmt print_ok (ast_of_stmt s) = Some (render_stmt sr0 (norm_stmt s)).
 Proof.
   intros [w b] Hok Hp. unfold stmt_ok, stmt_p in *. cbn [st_with st_body] in *.
+  apply andb_prop in Hok. destruct Hok as [Hok _].
   apply andb_prop in Hok, Hp. destruct Hok as [Hwo Hbo], Hp as [Hwp Hbp].
   pose proof (with_okp w Hwo Hwp) as Hw.
   unfold ast_of_stmt, render_stmt, norm_stmt. cbn [st_with st_body].
-  destruct b as [q|t cols src cf ret|t sets wh ret|t wh ret]; cbn [body_ok body_p norm_body ast_of_stmt_w RefStmt.render_body] in *.
+  destruct b as [q|t cols src cf ret|t sets wh ret|t wh ret|m]; cbn [body_ok body_p norm_body ast_of_stmt_w RefStmt.render_body] in *;
+    [| | | |discriminate Hbp].
   - rewrite (query_okp q _ _ Hbo Hbp Hw). rewrite (render_query_base _ (with_size _)). reflexivity.
   - repeat (apply andb_prop in Hbo; let H := fresh "Ho" in destruct Hbo as [Hbo H]).
     repeat (apply andb_prop in Hbp; let H := fresh "Hq" in destruct Hbp as [Hbp H]).
@@ -668,7 +679,7 @@ Qed.
 Lemma stmt_norm_ast : forall s, ast_of_stmt (norm_stmt s) = ast_of_stmt s.
 Proof.
   intros [w b]. unfold ast_of_stmt, norm_stmt. cbn [st_with st_body]. rewrite with_norm_ast.
-  destruct b as [q|t cols src cf ret|t sets wh ret|t wh ret]; cbn [norm_body ast_of_stmt_w].
+  destruct b as [q|t cols src cf ret|t sets wh ret|t wh ret|m]; cbn [norm_body ast_of_stmt_w]; [| | | |reflexivity].
   - apply query_norm_ast.
   - rewrite conflict_norm_ast, map_nm_ast. destruct src as [rows|q].
     + rewrite map_map. rewrite (map_ext (fun x => map ast_of (map nm x)) (map ast_of) map_nm_ast). reflexivity.
@@ -680,7 +691,7 @@ Qed.
 Lemma plain_norm : forall s, plain_operand s = true -> plain_operand (norm_select s) = true.
 Proof.
   intros s H. unfold plain_operand, norm_select in *.
-  cbn [s_order s_limit s_offset s_fetch]. destruct (s_order s); [|discriminate H]. destruct (s_limit s), (s_offset s), (s_fetch s); try discriminate H. reflexivity.
+  cbn [s_order s_limit s_offset s_fetch s_for]. destruct (s_order s); [|discriminate H]. destruct (s_limit s), (s_offset s), (s_fetch s), (s_for s); try discriminate H. reflexivity.
 Qed.
 Lemma operands_norm : forall q, operands_plain q = true -> operands_plain (norm_query q) = true.
 Proof.
@@ -701,7 +712,7 @@ Proof. intros l H. unfold norm_sets. rewrite forallb_map. eapply forallb_impl; [
 Lemma stmt_norm_ok : forall s, stmt_ok s = true -> stmt_ok (norm_stmt s) = true /\ stmt_bare_alias_free (norm_stmt s) = true.
 Proof.
   intros [w b] H. unfold stmt_ok, stmt_bare_alias_free, norm_stmt in *. cbn [st_with st_body] in *.
-  apply andb_prop in H. destruct H as [Hw Hb].
+  apply andb_prop in H. destruct H as [H Hm]. apply andb_prop in H. destruct H as [Hw Hb].
   assert (Ew : with_ok (norm_with w) = true
                /\ match norm_with w with None => true | Some w' => forallb (fun c => query_bare_alias_free (c_body c)) (w_ctes w') end = true).
   { destruct w as [[rc ctes]|]; cbn [norm_with option_map with_ok w_ctes] in *; [|split; reflexivity].
@@ -709,7 +720,8 @@ Proof.
     - eapply forallb_impl; [|exact Hc]. intros c Hx. unfold cte_ok, norm_cte in *. cbn [c_body]. apply (query_norm_ok _ Hx).
     - eapply forallb_impl; [|exact Hc]. intros c Hx. unfold cte_ok, norm_cte in *. cbn [c_body]. apply (query_norm_ok _ Hx). }
   destruct Ew as [Ew1 Ew2]. rewrite Ew1, Ew2. cbn [andb].
-  destruct b as [q|t cols src cf ret|t sets wh ret|t wh ret]; cbn [body_ok norm_body] in *.
+  destruct b as [q|t cols src cf ret|t sets wh ret|t wh ret|m]; cbn [body_ok norm_body] in *; rewrite ?andb_true_r.
+  5:{ destruct w as [w|]; [discriminate Hm|]. cbn [norm_with option_map]. rewrite Hb. split; reflexivity. }
   - apply query_norm_ok. exact Hb.
   - repeat (apply andb_prop in Hb; let H := fresh "Ho" in destruct Hb as [Hb H]).
     rewrite Hb, (refs_nm ret Ho1). cbn [andb].
